@@ -61,7 +61,7 @@ class TF(Task):
     x: Param[int]
 
     def execute(self):
-        pass
+        raise RuntimeError("c16: this job fails")
 
 
 class TH(Task):
@@ -94,11 +94,70 @@ class TE(Task):
 '''
 
 
+XP_SRC = '''
+"""experiment file for `experimaestro run-experiment`: plays the plan (a JSON file) given by `-c plan=...`"""
+import asyncio
+import json
+import time
+from pathlib import Path
+
+from experimaestro.exceptions import HandledException
+from experimaestro.experiments.configuration import configuration, ConfigurationBase
+from c16lib.tasks import TA, TB, TD, TF
+
+
+@configuration()
+class Configuration(ConfigurationBase):
+    plan: str = ""
+
+
+def run(helper, cfg: Configuration):
+    plan = json.loads(Path(cfg.plan).read_text())
+    xp = helper.xp
+    objs, rels = {}, []
+
+    def submit(job):
+        label, kind, x, dep = job
+        o = {"a": TA, "b": TB, "f": TF}[kind](x=x) if kind != "d" else TD(x=x, dep=objs[dep])
+        objs[label] = o.submit()
+        # the first segment of aio_submit (which creates the link) has run once this returns
+        asyncio.run_coroutine_threadsafe(asyncio.sleep(0), xp.loop).result(timeout=60)
+        rels.append([label, str(o.__xpm__.job.relpath)])
+        Path(plan["out"]).write_text(json.dumps(rels))
+
+    def finished():
+        """the submitted jobs are over (markers): the process may go away without interrupting a start"""
+        t0 = time.time()
+        jobs = Path(plan["ws"]) / "jobs"
+        while time.time() - t0 < 90:
+            if all(any((jobs / r).glob("*.done")) or any((jobs / r).glob("*.failed")) for _, r in rels):
+                return
+            time.sleep(0.02)
+
+    for job in plan["pre"]:
+        submit(job)
+    end = plan["end"]
+    if end == "stagefail":  # a job of the first stage fails: FailedExperiment (a HandledException)
+        xp.wait()
+        for job in plan["post"]:
+            submit(job)
+    elif end == "handled":
+        finished()
+        raise HandledException("c16: the run function gives up")
+    elif end == "exc":
+        finished()
+        raise RuntimeError("c16: the run function raises")
+    # "ok", "finalfail": the command itself waits for the jobs
+'''
+
+
 def write_lib(base: Path) -> Path:
     d = base / "lib" / "c16lib"
     d.mkdir(parents=True, exist_ok=True)
     (d / "__init__.py").write_text("")
     (d / "tasks.py").write_text(LIB_SRC)
+    (base / "lib" / "c16xp.py").write_text(XP_SRC)
+    (base / "lib" / "c16xp.yaml").write_text(f"id: {XPNAME}\nfile: c16xp\n")
     return base / "lib"
 
 
@@ -591,7 +650,7 @@ class HistoryRunner:
 
     def prespawn(self):
         for op in self.ops:
-            if op.get("p", 0) != 0:
+            if op.get("p", 0) != 0 and not op.get("cli"):
                 self.agent(op["p"])
 
     def record(self, idx, res, obs=True, orphans=True, **extra):
@@ -625,6 +684,8 @@ class HistoryRunner:
                 self.other_run(idx, op)
             elif kind == "neutral":
                 self.neutral_run(idx, op)
+            elif kind == "enter" and op.get("cli"):
+                self.cli_run(idx, op)
             elif p == 0:
                 if kind == "enter":
                     self.block0(idx)
@@ -720,6 +781,50 @@ class HistoryRunner:
 
         entered, raised = self.real.block(self.ws, OTHER, body)
         self.record(idx, "other-done", raised=raised, entered=entered)
+
+    def cli_run(self, idx, op):
+        """a whole run through the command line entry point `experimaestro run-experiment` (its own process,
+        the default launcher: job processes are really started).  The operations of the run (submissions up to
+        the exit of `p`) are written to a plan file that the experiment file `c16xp.py` plays."""
+        p = op["p"]
+        subs, j = [], self.i
+        while self.ops[j]["op"] != "exit":
+            subs.append((j, self.ops[j]))
+            j += 1
+        eidx, eop = j, self.ops[j]
+        self.i = j + 1
+        libdir = str(Path(self.real.tasks.__file__).parents[1])
+        planfile = self.ws.parent / f"plan-{self.hist['id']}-{idx}.json"
+        outfile = self.ws.parent / f"plan-{self.hist['id']}-{idx}.out"
+        job = lambda o: [o["job"], o["kind"], o["x"], o.get("dep")]  # noqa: E731
+        planfile.write_text(json.dumps({"pre": [job(o) for _, o in subs], "post": [job(o) for o in eop.get("post", [])],
+                                        "end": eop["how"], "out": str(outfile), "ws": str(self.ws)}))
+        env = dict(os.environ)
+        home = self.ws.parent / "home"
+        home.mkdir(exist_ok=True)
+        env["HOME"] = str(home)
+        env["PYTHONPATH"] = libdir + (":" + env["PYTHONPATH"] if env.get("PYTHONPATH") else "")
+        cmd = [sys.executable, "-m", "experimaestro", "run-experiment", "--workdir", str(self.ws), "--env", "PYTHONPATH",
+               env["PYTHONPATH"], "-c", f"plan={planfile}", str(Path(libdir) / "c16xp.yaml")]
+        try:
+            r = subprocess.run(cmd, env=env, capture_output=True, text=True, timeout=120)
+            rc, tail = r.returncode, (r.stdout + r.stderr)[-1500:]
+        except subprocess.TimeoutExpired:
+            self.record(idx, "cli-timeout")
+            self.abort = "run-experiment did not end"
+            return
+        done = json.loads(outfile.read_text()) if outfile.exists() else []
+        for label, rel in done:
+            self.relmap[rel] = label
+        if len(done) != len(subs):
+            self.record(idx, "cli-error", rc=rc, tail=tail, submitted=done)
+            self.abort = "run-experiment did not play the plan"
+            return
+        self.record(idx, "inside", obs=False)
+        for k, _ in subs:
+            self.record(k, "submitted", obs=False)
+        self.record(eidx, "exited", rc=rc, tail=tail[-400:] if (rc != 0) != (eop["how"] != "ok") else "",
+                    lock=probe_lock(self.ws, XPNAME))
 
     def neutral_run(self, idx, op):
         """a complete run of experiment `e` in run mode dry-run / generate, by process 0"""
@@ -1024,6 +1129,63 @@ CORPUS = [
 ]
 
 
+def _sub(p, kind, x, dep=None, **kw):
+    return dict({"op": "submit", "p": p, "job": job_label(kind, x, dep), "kind": kind, "x": x, "dep": dep, "sync": True}, **kw)
+
+
+def cli_run_ops(p, jobs, end, post=()):
+    """one run through `experimaestro run-experiment` (process p): jobs = [(kind, x, dep)]; end = ok | stagefail (a job
+    fails, the plan calls xp.wait() and would go on with `post`) | finalfail (a job fails, the command's own wait raises)
+    | handled (the run function raises HandledException) | exc (it raises RuntimeError)"""
+    ops = [{"op": "enter", "p": p, "cli": True}]
+    ops += [_sub(p, k, x, d, cli=True) for k, x, d in jobs]
+    ops.append({"op": "exit", "p": p, "how": end, "cli": True, "post": [_sub(p, k, x, d, cli=True) for k, x, d in post]})
+    return ops
+
+
+def gen_cli_history(rng, hid):
+    """3-5 runs of experiment `e`, most of them through the command line entry point, the others through the API (process 0)"""
+    ops, p = [], 0
+    for r in range(rng.choice([3, 4, 4, 5])):
+        n = rng.choice([1, 2, 2, 3])
+        jobs = []
+        for _ in range(n):
+            mine_a = [j for j in jobs if j[0] == "a"]
+            if mine_a and rng.random() < 0.2:
+                a = rng.choice(mine_a)
+                jobs.append(("d", rng.choice([0, 1]), job_label("a", a[1])))
+            else:
+                jobs.append((*rng.choice([("a", 0), ("a", 1), ("a", 2), ("b", 0), ("b", 1)]), None))
+        if r > 0 and rng.random() < 0.25:  # a run through the API in between
+            ops.append({"op": "enter", "p": 0})
+            ops += [_sub(0, k, x, d, settle=False) for k, x, d in jobs]
+            ops.append({"op": "exit", "p": 0, "how": rng.choice(["ok", "exc", "kbd"])})
+            continue
+        p += 1
+        end = "ok" if r == 0 else rng.choice(["ok", "stagefail", "finalfail", "handled", "handled", "exc"])
+        post = []
+        if end in ("stagefail", "finalfail"):
+            jobs.append(("f", rng.choice([0, 1]), None))
+            post = [("a", 3, None)] if end == "stagefail" else []
+        ops += cli_run_ops(p, jobs, end, post)
+    return {"id": hid, "ops": ops}
+
+
+CLI_CORPUS = [
+    # run-experiment: a completed plan, then a plan whose first stage fails (FailedExperiment out of xp.wait(): a
+    # HandledException), then a completed plan again
+    {"id": "cli-0", "ops": cli_run_ops(1, [("a", 0, None), ("b", 0, None)], "ok")
+        + cli_run_ops(2, [("a", 1, None), ("f", 0, None)], "stagefail", [("a", 2, None)])
+        + cli_run_ops(3, [("a", 1, None)], "ok")},
+    # completed; the run function raises HandledException; it raises RuntimeError; a job fails (final wait); completed
+    {"id": "cli-1", "ops": cli_run_ops(1, [("a", 0, None), ("b", 0, None)], "ok")
+        + cli_run_ops(2, [("a", 1, None)], "handled")
+        + cli_run_ops(3, [("a", 2, None), ("d", 0, "a2")], "exc")
+        + cli_run_ops(4, [("b", 1, None), ("f", 0, None)], "finalfail")
+        + cli_run_ops(5, [("a", 2, None)], "ok")},
+]
+
+
 # ---------------------------------------------------------------- evaluation (model lines + monitors)
 
 
@@ -1164,8 +1326,15 @@ def evaluate(ctx, hist, res, with_model=True):
         elif r in ("exited", "killed", "died-exiting"):
             inside = None
             if r == "exited":
-                how = {"ok": "normal end", "exc": "RuntimeError", "kbd": "KeyboardInterrupt", "sysexit": "SystemExit"}[op["how"]]
+                how = {"ok": "normal end", "exc": "RuntimeError", "kbd": "KeyboardInterrupt", "sysexit": "SystemExit",
+                       "stagefail": "FailedExperiment (job failed, xp.wait())", "finalfail": "FailedExperiment (job failed)",
+                       "handled": "HandledException"}[op["how"]]
                 clean = op["how"] == "ok"
+                if op.get("cli"):
+                    how = "run-experiment: " + how
+                    if (ev.get("rc") != 0) != (not clean):
+                        fail("cli-exit-status", f"`experimaestro run-experiment` ended with status {ev.get('rc')} after a run that "
+                             f"{'completed' if clean else 'aborted (' + how + ')'}: {ev.get('tail')}")
             elif r == "died-exiting":
                 how, clean = "death inside __exit__", True
             else:
@@ -1345,6 +1514,13 @@ def correspond(ctx):
                 "(instant success, instant failure, running-until-released, dependent on an earlier job) and ends normally, by RuntimeError/"
                 "KeyboardInterrupt/SystemExit, by SIGKILL/SIGTERM inside the block, inside __enter__ (k-th link move) or inside __exit__ "
                 "(k-th unlink of rmtree); with probability 0.22 a second process tries to enter meanwhile and either gives up or takes over. "
+                "Entry points that reach the index: (1) `with experiment(...)` (above), (2) the command line runner `experimaestro "
+                "run-experiment` (experiments/cli.py): separate histories (2 fixed + 2 generated in quick, 48 in thorough) whose runs are real "
+                "`python -m experimaestro run-experiment` processes with the default launcher (job processes really run), ending normally, by a "
+                "failing job + xp.wait() (FailedExperiment), by a failing job caught by the command's own wait, by a HandledException or a "
+                "RuntimeError of the run function, mixed with API runs; same comparison with the model plus the exit status (non-zero iff the "
+                "run aborted). Not driven: utils/jupyter.py `serverwidget` (calls __enter__/__exit__(None, None, None) of the same class by "
+                "hand; needs ipywidgets); experiment.load/save and services do not touch jobs/ or jobs.bak. "
                 "Non-trivial = at least two ended runs with two different kinds of ending and at least two submissions; distinct = distinct "
                 "operation list")
     ctx.assumptions += [
@@ -1356,7 +1532,10 @@ def correspond(ctx):
         "local filesystem semantics of rename/unlink/symlink (atomic per call)",
     ]
     n = ctx.scale(150, 2000)
-    hists = [dict(h) for h in CORPUS] + [gen_history(ctx.rng, f"{ctx.seed}-{i}") for i in range(n)]
+    ncli = ctx.scale(2, 46)
+    # the histories through the command line come first: they take seconds each and go to different workers
+    hists = ([dict(h) for h in CLI_CORPUS] + [gen_cli_history(ctx.rng, f"{ctx.seed}-cli{i}") for i in range(ncli)]
+             + [dict(h) for h in CORPUS] + [gen_history(ctx.rng, f"{ctx.seed}-{i}") for i in range(n)])
     for k in range(0, len(hists), 240):  # fresh workers per batch (a worker leaks a thread and a few fds per run)
         run_histories(ctx, hists[k:k + 240])
 
